@@ -648,7 +648,8 @@ func (g *goGen) buildTest(fi *FuncInfo, fc *FuncContract, su *Unit, decls []stri
 		b.WriteString(d + "\n")
 	}
 	b.WriteString("\nfunc TestGocvReplay(t *testing.T) {\n")
-	b.WriteString("\tdefer func() { if r := recover(); r != nil { fmt.Println(\"GOCV-REPLAY: PANIC on the real code:\", r); t.Fail() } }()\n")
+	b.WriteString("\tgocvPhase := \"contract\"\n\t_ = gocvPhase\n")
+	b.WriteString("\tdefer func() { if r := recover(); r != nil { if gocvPhase == \"call\" { fmt.Println(\"GOCV-REPLAY: PANIC on the real code:\", r); t.Fail() } else { fmt.Println(\"GOCV-REPLAY: PRECONDITION (a contract expression is not evaluable on this input):\", r) } } }()\n")
 	for _, d := range decls {
 		b.WriteString(d + "\n")
 	}
@@ -665,7 +666,7 @@ func (g *goGen) buildTest(fi *FuncInfo, fc *FuncContract, su *Unit, decls []stri
 	for _, l := range reqs {
 		b.WriteString(l + "\n")
 	}
-	b.WriteString("\t" + call + "\n")
+	b.WriteString("\tgocvPhase = \"call\"\n\t" + call + "\n\tgocvPhase = \"contract\"\n")
 	for _, u := range uses {
 		b.WriteString("\t" + u + "\n")
 	}
